@@ -39,14 +39,23 @@ def FgOwns (s : State) : Prop := ∀ w, s.mode = .waiting w → s.tfg = w.gid
 def BgNeverOwns (s : State) : Prop := ∀ j ∈ s.sh.jobs, fgGid s.mode ≠ some j.gid → s.tfg ≠ j.gid
 
 /-- the parent's `setpgid` for child `pid` is still to come (the window between `fork` and that call) -/
-def inSetpgidWindow (s : State) (pid : Pid) : Prop := ∃ l, s.mode = .launching l ∧ l.phase = .pset pid
+def inSetpgidWindow (s : State) (pid : Pid) : Bool :=
+  match s.mode with
+  | .launching l => l.phase = .pset pid
+  | _ => false
 
 /-- every stage of every pipeline is in the group led by the pipeline's first stage, from the parent's `setpgid` on -/
-def OneGroup (s : State) : Prop := ∀ p ∈ s.procs, ¬ inSetpgidWindow s p.pid → p.pgid = p.first
+def OneGroup (s : State) : Prop := ∀ p ∈ s.procs, inSetpgidWindow s p.pid = false → p.pgid = p.first
 
-/-- when `wait_fg_job` has returned, every process it waited for is stopped or gone -/
+instance (s : State) : Decidable (OneGroup s) := by unfold OneGroup; infer_instance
+
+/-- when `wait_fg_job` has returned, no process of the pipeline it waited for is still running -/
 def WaitComplete (s : State) : Prop :=
-  ∀ g o, s.mode = .handback g o → ∀ p ∈ s.procs, p.first = g → p.st ≠ .running
+  match s.mode with
+  | .handback g _ => ∀ p ∈ s.procs, p.first = g → p.st ≠ .running
+  | _ => True
+
+instance (s : State) : Decidable (WaitComplete s) := by unfold WaitComplete; split <;> infer_instance
 
 /-- each finished job is announced at most once -/
 def ReportedOnce (s : State) : Prop :=
@@ -186,5 +195,122 @@ def specObs (w : World) (outs : List Out) : Obs :=
       | .stopped => PSt.stopped
       | .gone => PSt.reaped), true),
     outs := outs }
+
+/-! ### input-level classes of the known findings
+
+Evaluated on the reference world only (never on the model's output): what was done to which process while
+the shell was in which situation. -/
+
+structure Flags where
+  /-- a stop or continue was sent to one member of a pipeline that has another long-running stage -/
+  memberAlone : Bool := false
+  /-- a member of the awaited pipeline was stopped and later killed, or stopped twice, within one wait -/
+  countedTwice : Bool := false
+  /-- a process outside the awaited pipeline was stopped and continued (or continued and stopped) with no prompt in
+  between, the second time while the shell was waiting (so that the first change had been parked) -/
+  parkedPair : Bool := false
+  /-- a member of the awaited pipeline was continued from outside -/
+  fgContinued : Bool := false
+  /-- members of the awaited pipeline stopped since the current wait began -/
+  stoppedInWait : List Nat := []
+  /-- processes stopped / continued from outside since the last end of a line -/
+  stopSincePoll : List Nat := []
+  contSincePoll : List Nat := []
+  deriving Repr
+
+def jobOf (w : World) (i : Nat) : Option WJob := w.jobs.find? fun j => j.members.contains i
+
+def isLine : SAct → Bool
+  | .launch _ _ => true
+  | .fg _ => true
+  | .bg _ => true
+  | .jobs => true
+  | .empty => true
+  | _ => false
+
+def flagStep (w w' : World) (f : Flags) (a : SAct) : Flags :=
+  let waiting := w.fg.isSome
+  let fgMembers : List Nat := match w.fg.bind fun id => w.jobs.find? (·.id = id) with
+    | some j => j.members
+    | none => []
+  let others := fun (i : Nat) => match jobOf w i with
+    | some j => (j.long.filter (· ≠ i)).length > 0
+    | none => false
+  let f := match a with
+    | .stop i =>
+      if w.st i ≠ .running then f else
+      let f := if others i then { f with memberAlone := true } else f
+      let f := if waiting && fgMembers.contains i && f.stoppedInWait.contains i then { f with countedTwice := true } else f
+      let f := if waiting && !fgMembers.contains i && f.contSincePoll.contains i then { f with parkedPair := true } else f
+      let f := if waiting && fgMembers.contains i then { f with stoppedInWait := f.stoppedInWait ++ [i] } else f
+      { f with stopSincePoll := f.stopSincePoll ++ [i] }
+    | .cont i =>
+      if w.st i ≠ .stopped then f else
+      let f := if others i then { f with memberAlone := true } else f
+      let f := if waiting && fgMembers.contains i then { f with fgContinued := true } else f
+      let f := if waiting && !fgMembers.contains i && f.stopSincePoll.contains i then { f with parkedPair := true } else f
+      { f with contSincePoll := f.contSincePoll ++ [i] }
+    | .kill i =>
+      if w.st i = .gone then f else
+      if waiting && fgMembers.contains i && f.stoppedInWait.contains i && others i then { f with countedTwice := true } else f
+    | _ => f
+  -- the prompt is back after a line or after a wait: the poll has run
+  let f := if w'.fg.isNone && (isLine a || waiting) then { f with stopSincePoll := [], contSincePoll := [] } else f
+  if w'.fg.isNone then { f with stoppedInWait := [] } else f
+
+def flagsOf (acts : List SAct) : Flags :=
+  (acts.foldl (fun (acc : World × Flags) a =>
+    let w' := (specStep acc.1 a).1
+    (w', flagStep acc.1 w' acc.2 a)) ({}, {})).2
+
+def classOf (f : Flags) : String :=
+  if f.countedTwice then "wait-counts-member-twice"
+  else if f.fgContinued then "foreground-member-continued"
+  else if f.parkedPair then "stop-cont-parked-together"
+  else if f.memberAlone then "member-signalled-alone"
+  else "-"
+
+/-- the domain on which the session-level statement is claimed: no finding class applies -/
+def guard (acts : List SAct) : Bool := classOf (flagsOf acts) = "-"
+
+/-! ### what a session shows, model against reference world -/
+
+/-- the session through the model along the canonical schedule (children's status changes reach a waiting
+shell in creation order); command texts play no role here -/
+def modelSession (c : Cfg) (acts : List SAct) : Option (List Obs) :=
+  (acts.foldl (fun (acc : Option (State × List Obs)) a =>
+    acc.bind fun (s, obs) => (runMacro c (fun _ _ => "") [] s a).map fun s' => (s', obs ++ [observe s s']))
+    (some (init shellPid, []))).map (·.2)
+
+def specSession (acts : List SAct) : List Obs :=
+  (acts.foldl (fun (acc : World × List Obs) a =>
+    let (w', outs) := specStep acc.1 a
+    (w', acc.2 ++ [specObs w' outs])) ({}, [])).2
+
+/-- announcements of `Stopped` and diagnostics are not prescribed; the wording of a final announcement is not either -/
+def cleanOuts (outs : List Out) : List Out :=
+  outs.filterMap fun o => match o with
+    | .report i g w => if w = "Stopped" then none else some (.report i g "Fin")
+    | .msg _ => none
+    | o => some o
+
+def goneLike : PSt → Bool
+  | .zombie => true
+  | .reaped => true
+  | _ => false
+
+/-- equality of two observations as far as the reference world speaks: same prompt / owner, every process in
+the same state (a zombie counts as gone) and, while it lives, in its pipeline's group, the same set of lines -/
+def obsAgree (m s : Obs) : Bool :=
+  m.atPrompt = s.atPrompt && m.tfg = s.tfg &&
+  m.procs.length = s.procs.length &&
+  (m.procs.zip s.procs).all (fun (a, b) => a.1 = b.1 && ((goneLike a.2.1 && goneLike b.2.1) || (a.2.1 = b.2.1 && a.2.2 = b.2.2))) &&
+  (cleanOuts m.outs).all (fun o => (cleanOuts s.outs).contains o) && (cleanOuts s.outs).all (fun o => (cleanOuts m.outs).contains o)
+
+/-- the session shows what the reference world prescribes -/
+def SessionHolds (c : Cfg) (acts : List SAct) : Bool :=
+  match modelSession c acts with
+  | some obs => obs.length = (specSession acts).length && (obs.zip (specSession acts)).all fun (m, s) => obsAgree m s
+  | none => false
 
 end Cicada.C07
